@@ -59,6 +59,8 @@ package auditd
 //@   requires o != nil && ctx != nil && o.Health != nil && HealthOK(o.Health) && o.EventW != nil && o.Audits != nil
 //@   requires (o.Logins == nil || alloc(o.Logins)) && alloc(o.Audits)
 //@   ensures[nonnil] result != nil
+// C15 quantifies over interleavings of up to three concurrent kernel events: the reassembly window must hold them.
+//@   assert_at NewReassembler[window] maxInFlight >= 3
 //@   assert_at NewReassembler[errcap] chancap(cast(stream, "*processors/auditd.reassemblerCB").errors) >= 1 && pending(cast(stream, "*processors/auditd.reassemblerCB").errors) == 0
 //@   |   && cast(stream, "*processors/auditd.reassemblerCB").au != nil
 //@   assert_at (*sessionTracker).DeleteUsersWithoutLoginsBefore[cutoff] t == aMinuteAgo && t == clock - 60000000000
